@@ -99,6 +99,7 @@ Step(st, e) ==
     [] e.e = "Nack" -> OnNack(st, e)
     [] e.e = "Observers" -> OnObservers(st, e)
     [] e.e = "IoDone" -> OnIoDone(st, e)
+    [] e.e = "Disc" -> RR(Disc_do(st, e.s), "")
     [] e.e = "FreeContext" -> RR([st EXCEPT !.teardown = TRUE], "")
     [] e.e = "Ledger" -> OnLedger(st, e)
     [] e.e = "Hang" -> RR(st, "C12:endpoint-never-became-quiet")
